@@ -114,19 +114,7 @@ func genKSplit(c *Ctx) {
 			// corpus: a long STIFF reservoir run (release follows the volume with a time constant of about a day, ~2000 sub-steps
 			// per daily step, > 600000 sub-steps in one call): anything accumulated over a whole call shows only here
 			const nT = 420
-			k := &KCall{Model: "Storage", Init: true, P: []float64{86400, 2, 0, 10, 0, 1e7, 1e5, 1e6, 0, 0, 0, 100}}
-			k.In = make([][]float64, 6)
-			for i := range k.In {
-				k.In[i] = make([]float64, nT)
-			}
-			for t := 0; t < nT; t++ {
-				v := 50 + 30*math.Sin(float64(t)*2.1) + 10*math.Cos(float64(t)*0.37)
-				if t%2 == 0 {
-					v = 90 - v/2
-				}
-				k.In[2][t] = v
-				k.In[3][t] = 1e6
-			}
+			k := storageLongStiffCase(nT)
 			c.Do(fmt.Sprintf("%s 1 %d", k.Body(), nT/2), true)
 			c.Stats.Count("corpus:storage-long-stiff")
 		}
